@@ -223,6 +223,21 @@ func renderNodeWithContext(ctx VueContext, w io.Writer, node *html.Node, indent 
 			return nil
 		}
 
+		// Whitespace is significant inside pre and textarea: their content is
+		// written without indentation or added line breaks.
+		if tagName == "pre" || tagName == "textarea" {
+			_, _ = w.Write([]byte(spaces + "<" + tagName + renderAttrs(node.Attr) + ">"))
+			// A parser drops one newline right after the start tag; keep the content's own.
+			if firstChild != nil && firstChild.Type == html.TextNode && strings.HasPrefix(firstChild.Data, "\n") {
+				_, _ = w.Write([]byte("\n"))
+			}
+			for c := firstChild; c != nil; c = c.NextSibling {
+				renderNodeVerbatim(w, c)
+			}
+			_, _ = w.Write([]byte("</" + tagName + ">\n"))
+			return nil
+		}
+
 		// compact single-entry text nodes
 		if childCount == 0 {
 			_, _ = w.Write([]byte(spaces + "<" + tagName + renderAttrs(node.Attr) + "></" + tagName + ">\n"))
@@ -252,4 +267,33 @@ func renderNodeWithContext(ctx VueContext, w io.Writer, node *html.Node, indent 
 	}
 
 	return nil
+}
+
+// renderNodeVerbatim writes a subtree without adding or removing any whitespace.
+func renderNodeVerbatim(w io.Writer, node *html.Node) {
+	switch node.Type {
+	case html.TextNode:
+		_, _ = w.Write([]byte(html.EscapeString(node.Data)))
+	case html.ElementNode:
+		for _, attr := range node.Attr {
+			if attr.Key == "data-v-html-content" || attr.Key == "data-v-text-content" {
+				if node.Data == "template" {
+					_, _ = w.Write([]byte(attr.Val))
+				} else {
+					_, _ = w.Write([]byte("<" + node.Data + renderAttrs(node.Attr) + ">" + attr.Val + "</" + node.Data + ">"))
+				}
+				return
+			}
+		}
+		keep := node.Data != "template" || helpers.HasAttr(node, "v-keep")
+		if keep {
+			_, _ = w.Write([]byte("<" + node.Data + renderAttrs(helpers.FilterAttrs(node.Attr, "v-keep")) + ">"))
+		}
+		for c := node.FirstChild; c != nil; c = c.NextSibling {
+			renderNodeVerbatim(w, c)
+		}
+		if keep {
+			_, _ = w.Write([]byte("</" + node.Data + ">"))
+		}
+	}
 }
